@@ -18,7 +18,7 @@ def build(ctx):
 def log(ctx, name, nlines, stopmode, tier, defs, timeout=600):
     nb = 2 * nlines + 5
     ctx.add(Harness(name, VERIF + '/harness/C28_log.c', defines=defs + ['NLINES=%d' % nlines, 'STOPMODE=%d' % stopmode, 'VF_MAXCOPY=4'], unwind=4,
-                    unwindset=[LOOP + '.0:%d' % nb, 'sched.0:%d' % (nlines + 3), 'main.0:%d' % (nlines + 2), 'main.1:%d' % (nlines + 2), 'main.2:%d' % (nlines + 4), 'vf_copy.0:6'],
+                    unwindset=[LOOP + '.0:%d' % nb, 'sched.0:%d' % (nlines + 4), 'sched.1:%d' % (nlines + 4)] + ['main.%d:%d' % (i, nlines + 5) for i in range(5)] + ['vf_copy.0:6'],
                     timeout=timeout, mem_gb=16, functions=FUN, stubs=STUBS, tier=tier,
                     bounds='%d line(s) submitted through Logger::send by any producers (level enabled/disabled chosen by the solver), stop() %s, every interleaving of producer steps with the logger thread at operation granularity; line text 1 byte' % (
                         nlines, 'as one atomic call' if stopmode == 0 else 'as its two statements (request_stop; enqueue(marker)) with the logger thread schedulable in between'),
@@ -45,5 +45,5 @@ def replay(ctx, cx, h=None):
     exe = ctx.native('c28replay', ['replay/c28_replay.cpp'], flags=('-O1', '-g'), libs=['-L' + REPO + '/runtime/.libs', '-lfix8', '-Wl,-rpath,' + REPO + '/runtime/.libs'])
     n = int(c.get('cx_nlines', 2) or 2)
     want = ('ret' if int(c.get('cx_ret_bad', 0) or 0) else '') + ('drop' if int(c.get('cx_dropped', 0) or 0) else '')
-    r = sh([exe, str(n), want or 'any'])
+    r = sh([exe, str(n), want or 'any'], cwd=ctx.work)
     return r.returncode != 0, r.stdout.strip()[-500:].replace('\n', ' | ')
